@@ -7,6 +7,7 @@ import bridgepoint.oal as oal
 from . import oalsyn
 from .oalgen import (N, Printer, render, compare, body, walk_pairs, node_span, EXPRESSION_NODES, STATEMENT_NODES)
 from .core import Violation, hyp_run, loop_run, Res, exc_bucket, TimeLimit
+from . import fuzz
 
 PROPERTY = 'C13'
 RULE = ('totality: arbitrary unicode text, token soup over the OAL token alphabet, single-edit mutants (delete / duplicate / '
@@ -19,7 +20,9 @@ RULE = ('totality: arbitrary unicode text, token soup over the OAL token alphabe
         'and line comments, newlines inside "end if/for/while", glued tokens, redundant parentheses): every statement '
         'and expression node must carry the line/column of its first token, the line/column of the last character of '
         'its last token and the exact source substring, all computed by the printer from token offsets. '
-        'non-trivial (positions) = text spanning >= 3 lines with a multi-line expression and a comment containing a '
+        'coverage-guided: an atheris / libFuzzer campaign on oal.parse (grammar actions, PLY driver and lexer callbacks instrumented; '
+        'token-level custom mutator over the soup alphabet mixed with byte mutations; seed corpus of generated programs, one thorough shard in four starts empty) with the '
+        'totality + accepted-text oracle inside the target. non-trivial (positions) = text spanning >= 3 lines with a multi-line expression and a comment containing a '
         'newline; (totality) = input on which >= 3 tokens are recognisable; distinct = by text.')
 ASSUMPTIONS = [
     'a parenthesised expression spans its parentheses (the grammar re-positions the node on the grouped production)',
@@ -294,6 +297,9 @@ def run(ctx):
                        st.sampled_from(['x = 1;\ny = 2;\nz = 3', 'if (true)\n x = 1;\n', 'x = (1 +\n\n 2;', '/* a\nb */ x = ;', 'x = 1;\n\n\n']))
     hyp_run(ctx, res, st.fixed_dictionaries({'tape': oalsyn.tapes(400, 40), 'layout': oalsyn.layouts(), 'poison': poison}),
             lambda c: positions_case(c, res), ctx.pick(3000, 20000), label='positions')
+    # coverage-guided campaign over the grammar actions (same oracle as the totality part, inside the fuzz target); the
+    # thorough tier also starts one shard in four from an empty corpus
+    fuzz.fuzz_run(ctx, res, 'oal', ctx.pick(6000, 150000), 'oal', empty_corpus=(not ctx.quick and ctx.shard % 4 == 3))
     return res
 
 
